@@ -50,7 +50,7 @@ m = {
     }],
     "checks": checks,
     "not_applicable": [{"property_id": p, "reason": NOT_APPLICABLE[p]} for p in props if p not in CLAIMED],
-    "notes": "Static analysis only. Every check re-loads and type-checks /repo's working tree, enumerates obligations (rule, construct) and reports file:line for each violated one. Level 'other' everywhere: the checks decide the structural clauses named in each evidence file's coverage.explanation, not the full behavioural property. known_findings.json lists genuine defects recorded rather than repaired and 'fixed:' entries for repaired ones. Positive controls (mutants/*.json) are applied through the loader's overlay and never written to /repo.",
+    "notes": "Static analysis only. Every check re-loads and type-checks /repo's working tree, enumerates obligations (rule, construct) and reports file:line for each violated one. Level 'other' everywhere: the checks decide the structural clauses named in each evidence file's coverage.explanation, not the full behavioural property. known_findings.json lists genuine defects recorded rather than repaired and 'fixed:' entries for repaired ones. Positive controls (mutants/*.json) are applied through the loader's overlay and never written to /repo. A tree whose unexported names or whose division into helper functions differs from the tree the rules were confirmed on is read in a normal form before the rules run (reference names from reference_names.json; helpers inlined at their call sites, or a statement in the role of a missing function taken out into one - DESIGN.md 8.7); stdout then carries NORMAL-FORM lines and the evidence says what was read as what (coverage.reference_names, coverage.normal_form).",
 }
 missing = [p for p in props if p not in CLAIMED and p not in NOT_APPLICABLE]
 if missing:
